@@ -19,6 +19,14 @@
 (*   the loop hands a datagram for a closed association to a fresh one,    *)
 (*   notices carry the association and only delete their own entry.        *)
 (*                                                                         *)
+(* Shutdown = TRUE adds the end of the loop: the socket is closed, the      *)
+(* reader reports the error, servePacket returns - while handlers may      *)
+(* still be running.  Their Close then sends its notice into closeCh,      *)
+(* which nobody reads any more: with more live associations than the       *)
+(* channel holds, the rest block in Close for ever (CloseGivesUp = FALSE,  *)
+(* the code as it is).  CloseGivesUp = TRUE is a Close that does not wait  *)
+(* for a loop that has gone.                                               *)
+(*                                                                         *)
 (* Handler behaviour is a parameter: an association reads Reads[a-th]      *)
 (* datagrams and returns; it may also see its idle timer fire while its    *)
 (* queue is empty.                                                         *)
@@ -30,7 +38,8 @@ CONSTANTS Clients,       \* client addresses
           MaxAssoc,      \* associations in all
           PacketsCap, ReadCap, CloseCap,   \* channel capacities (10 / 5 / 10 in the code)
           ReadsBeforeReturn,               \* a handler returns after this many datagrams
-          Mode
+          Mode,
+          Shutdown, CloseGivesUp
 
 VARIABLES sent,      \* datagrams that reached the socket so far (global arrival sequence)
           packets,   \* chan packet
@@ -55,7 +64,7 @@ Init == /\ sent = 0 /\ packets = <<>> /\ closeCh = <<>>
         /\ lateTo = {}
 
 \* Reader goroutine + client: a datagram from c reaches the packets channel (server.go 101-115)
-Arrive(c) == /\ sent < MaxDg /\ Len(packets) < PacketsCap /\ ~crashed
+Arrive(c) == /\ sent < MaxDg /\ Len(packets) < PacketsCap /\ ~crashed /\ loop.pc # "gone"
              /\ sent' = sent + 1
              /\ packets' = Append(packets, [addr |-> c, seq |-> sent + 1])
              /\ UNCHANGED <<closeCh, udpConns, nextA, A, loop, crashed, staleDelete, delivered, lateTo>>
@@ -135,17 +144,27 @@ HClose1(a) ==
   /\ A' = [A EXCEPT ![a].closed = TRUE, ![a].q = <<>>, ![a].st = "close2"]
   /\ UNCHANGED <<sent, packets, closeCh, udpConns, nextA, loop, crashed, staleDelete, delivered, lateTo>>
 
+\* the socket is closed: the reader's error reaches the loop, servePacket returns (handlers go on)
+LoopShutdown == /\ Shutdown /\ loop.pc = "select" /\ ~crashed
+                /\ loop' = [pc |-> "gone"]
+                /\ UNCHANGED <<sent, packets, closeCh, udpConns, nextA, A, crashed, staleDelete, delivered, lateTo>>
+
 \* Close step 2 (351): closeCh <- notice
 HClose2(a) ==
-  /\ A[a].st = "close2" /\ Len(closeCh) < CloseCap /\ ~crashed
-  /\ closeCh' = Append(closeCh, [addr |-> A[a].addr, a |-> a])
+  /\ A[a].st = "close2" /\ ~crashed
+  /\ IF Len(closeCh) < CloseCap
+     THEN closeCh' = Append(closeCh, [addr |-> A[a].addr, a |-> a])
+     ELSE CloseGivesUp /\ loop.pc = "gone" /\ UNCHANGED closeCh
   /\ A' = [A EXCEPT ![a].st = "done"]
   /\ UNCHANGED <<sent, packets, udpConns, nextA, loop, crashed, staleDelete, delivered, lateTo>>
 
 Next == \/ \E c \in Clients : Arrive(c)
-        \/ LoopNotice \/ LoopPacket \/ LoopSend
+        \/ LoopNotice \/ LoopPacket \/ LoopSend \/ LoopShutdown
         \/ \E a \in Assocs : HRead(a) \/ HIdle(a) \/ HClose1(a) \/ HClose2(a)
 Spec == Init /\ [][Next]_vars
+\* every goroutine that can take a step eventually does
+FairSpec == Spec /\ WF_vars(LoopNotice) /\ WF_vars(LoopPacket) /\ WF_vars(LoopSend)
+                 /\ \A a \in Assocs : WF_vars(HRead(a)) /\ WF_vars(HClose1(a)) /\ WF_vars(HClose2(a))
 
 \* ---- properties (C09) ----
 NoCrash == ~crashed
@@ -154,6 +173,8 @@ OwnClientOnly == \A a \in Assocs : \A i \in 1..Len(delivered[a]) : delivered[a][
 InOrder == \A a \in Assocs : \A i \in 1..(Len(delivered[a]) - 1) : delivered[a][i].seq < delivered[a][i+1].seq
 \* a datagram is never queued to an association that has already ended (it would be lost for ever)
 NoLateQueue == lateTo = {}
+\* a handler that has come back gets through Close: its goroutine ends (also after the loop has gone)
+ClosersEnd == \A a \in Assocs : (A[a].st = "close2") ~> (A[a].st = "done")
 \* the state constraint that keeps association ids in range must not hide behaviours
 View == <<sent, packets, closeCh, udpConns, nextA, A, loop, crashed, staleDelete, lateTo>>
 =============================================================================
